@@ -197,11 +197,87 @@ example : ∃ g, g ∈ uniqueFields [⟨"total", "Total", false⟩, ⟨"sum", "T
     that function -/
 theorem mangled_label_witness :
     let fl : Flavour := { follow with label := [.sub (.ucFirst .objName), .lit ".", .sub .fieldName] }
-    let objs : List GObject := [⟨"item", false, [⟨"more", "More", false⟩]⟩]
+    let objs : List GObject := [⟨"item", false, [⟨"more", "More", false⟩], []⟩]
     dispatchBy fl objs "item" "more" = none
       ∧ ComplexitySwitch.Spec.entryOf objs "item" "more" = some ("item", "More") ∧ ¬ Faithful fl := by
   refine ⟨by decide, by decide, fun h => ?_⟩
   have := h.label "item" ⟨"more", "More", false⟩
+  revert this
+  decide
+
+/-! ## the KIND of the object (query / mutation / subscription root, ordinary type) does not matter -/
+
+/-- the pair switch of `Model/ComplexitySwitch.lean` never looks at `GObject.attrs` -/
+theorem dispatch_ignores_attrs (k : GObject → List String) (objs : List GObject) (t f : String) :
+    dispatch (objs.map fun o => { o with attrs := k o }) t f = dispatch objs t f := by
+  unfold dispatch arms
+  rw [List.flatMap_map]
+  rfl
+
+/-- a faithful flavour dispatches by NAME only: relabel the objects' kinds (`$object.Root`, `$object.Stream`) in any way -
+    make every object the subscription root, or none - and `Complexity()` calls the same entry for every `typeName.field` -/
+theorem object_kind_irrelevant (fl : Flavour) (hf : Faithful fl) (k : GObject → List String) (objs : List GObject)
+    (hd : ∀ o ∈ objs, NoDot o.name) (t f : String) (ht : NoDot t) :
+    dispatchBy fl (objs.map fun o => { o with attrs := k o }) t f = dispatchBy fl objs t f := by
+  rw [dispatchBy_eq_dispatch fl hf objs hd t f ht, dispatchBy_eq_dispatch fl hf _ _ t f ht, dispatch_ignores_attrs]
+  intro o ho
+  rw [List.mem_map] at ho
+  obtain ⟨o', ho', rfl⟩ := ho
+  exact hd o' ho'
+
+/-- every non-reserved field of every non-reserved object - in particular of EVERY root: Query, Mutation and the
+    Subscription root (`"Stream" ∈ o.attrs`) - has a clause, and the clause calls `ComplexityRoot.<UcFirst type>.<Go field>` -/
+theorem every_object_field_dispatched (fl : Flavour) (hf : Faithful fl) (objs : List GObject) (hw : WellNamed objs)
+    (hd : ∀ o ∈ objs, NoDot o.name) (o : GObject) (ho : o ∈ objs) (hr : o.reserved = false)
+    (fd : GField) (hfd : fd ∈ o.fields) (hfr : fd.reserved = false) :
+    dispatchBy fl objs o.name fd.name = some (ucFirst o.name, fd.goName) := by
+  rw [dispatchBy_eq_dispatch fl hf objs hd o.name fd.name (hd o ho), C14Gen.switch_eq_binding objs hw,
+    C14Gen.entryOf_of_bound objs hw o.name fd.name (o.name, fd.goName) ⟨o, ho, rfl, hr, fd, hfd, rfl, hfr, rfl⟩]
+  rfl
+
+/-- ... and so costs what the function the user stored there says (nil: no custom cost), whatever root it is a field of -/
+theorem every_object_field_costs_its_function (fl : Flavour) (hf : Faithful fl) (objs : List GObject) (hw : WellNamed objs)
+    (hd : ∀ o ∈ objs, NoDot o.name) (root : GoRoot) (o : GObject) (ho : o ∈ objs) (hr : o.reserved = false)
+    (fd : GField) (hfd : fd ∈ o.fields) (hfr : fd.reserved = false) (child : Int) (args : Args) :
+    switchCustomBy fl objs root o.name fd.name child args = (root (ucFirst o.name) fd.goName).map fun fn => fn child args := by
+  rw [flavour_custom_eq_binding fl hf objs hw hd root o.name fd.name (hd o ho)]
+  unfold ComplexitySwitch.Spec.boundCustom
+  rw [C14Gen.entryOf_of_bound objs hw o.name fd.name (o.name, fd.goName) ⟨o, ho, rfl, hr, fd, hfd, rfl, hfr, rfl⟩]
+  simp only [GoRoot.bySchemaName]
+  cases root (ucFirst o.name) fd.goName <;> rfl
+
+/-- a server with the three roots -/
+def rootsDemo : List GObject :=
+  [⟨"Query", false, [⟨"history", "History", false⟩, ⟨"__schema", "introspectSchema", true⟩], ["Root"]⟩,
+   ⟨"Mutation", false, [⟨"bump", "Bump", false⟩], ["Root"]⟩,
+   ⟨"Subscription", false, [⟨"events", "Events", false⟩], ["Root", "Stream"]⟩,
+   ⟨"Event", false, [⟨"id", "ID", false⟩], []⟩]
+
+example : WellNamed rootsDemo ∧ (∀ o ∈ rootsDemo, NoDot o.name) := by
+  refine ⟨⟨by decide, ?_⟩, ?_⟩ <;>
+  · intro o ho
+    simp only [rootsDemo, List.mem_cons, List.not_mem_nil, or_false] at ho
+    rcases ho with rfl | rfl | rfl | rfl <;> (try unfold NoDot) <;> decide
+
+example : dispatchBy single rootsDemo "Subscription" "events" = some ("Subscription", "Events")
+    ∧ dispatchBy follow rootsDemo "Subscription" "events" = some ("Subscription", "Events")
+    ∧ dispatchBy single rootsDemo "Mutation" "bump" = some ("Mutation", "Bump")
+    ∧ dispatchBy follow rootsDemo "Query" "history" = some ("Query", "History") := by decide
+
+/-- the switch guarded by `{{ if and (not $object.IsReserved) (not $object.Stream) }}` while `ComplexityRoot` keeps its
+    guard: the struct still offers `ComplexityRoot.Subscription.Events`, the documented binding gives `Subscription.events`
+    that function, `Complexity("Subscription", "events", …)` matches no clause (the field costs the default, so a
+    subscription above the limit is let through), queries and mutations are untouched; such a flavour is not `Faithful` -/
+theorem stream_guard_witness :
+    let fl : Flavour := { single with objGuard := .and (.not .objReserved) (.not (.objAttr "Stream")) }
+    dispatchBy fl rootsDemo "Subscription" "events" = none
+      ∧ rootDecl fl ⟨"Subscription", false, [⟨"events", "Events", false⟩], ["Root", "Stream"]⟩ = some ("Subscription", ["Events"])
+      ∧ ComplexitySwitch.Spec.entryOf rootsDemo "Subscription" "events" = some ("Subscription", "Events")
+      ∧ dispatchBy fl rootsDemo "Query" "history" = some ("Query", "History")
+      ∧ dispatchBy fl rootsDemo "Mutation" "bump" = some ("Mutation", "Bump")
+      ∧ ¬ Faithful fl := by
+  refine ⟨by decide, by decide, by decide, by decide, by decide, fun h => ?_⟩
+  have := h.objGuard (fun _ => true) false false
   revert this
   decide
 
